@@ -41,6 +41,7 @@ void h_trace_tuple(void) {
   bool have_table = debugInfo_size != 0;
   step();
   __CPROVER_assert(g_fmt_calls >= 1, "C15: every traced step prints a line");
+  __CPROVER_assert(!g_fmt_truncates, "C15: no column of the trace line is cut short by its format directive (a precision on %s)");
   __CPROVER_assert(g_first_nargs == (have_table ? 6 : 4), "C15: line shape (count, address, [symbol+offset], mnemonic, operand)");
   __CPROVER_assert(g_first_args[0] == (uint64_t)cycles0, "C15: first column is the running instruction count");
   __CPROVER_assert(g_first_args[1] == (uint64_t)pc0, "C15: second column is the byte address of the instruction executed");
